@@ -166,7 +166,8 @@ class RecordingProblem(ProxyProblem):
 
 
 class FaultLinearSolverFactory:
-    """Replaces pygradflow.linear_solver.linear_solver.  fail=('factor'|'solve', k)."""
+    """Replaces pygradflow.linear_solver.linear_solver.  fail=('factor'|'solve'|'nan', k): the k-th factorisation /
+    solve raises LinearSolverError, or the k-th solve silently returns a vector containing NaN."""
 
     def __init__(self, real, fail=None, record=False):
         self.real = real
@@ -206,6 +207,10 @@ class _SolverProxy:
             fac.fired.append(("solve", k, current_trial()))
             raise LinearSolverError("injected solve failure #%d" % k)
         sol = self._inner.solve(rhs, trans=trans, initial_sol=initial_sol)
+        if fac.fail is not None and fac.fail[0] == "nan" and fac.fail[1] == k:
+            # a solver that returns non-finite values without raising (as iterative solvers do after overflow)
+            fac.fired.append(("nan", k, current_trial()))
+            sol = np.full(np.shape(sol), np.nan)
         if fac.record:
             fac.log.append((self._mat, np.copy(rhs), np.copy(sol), trans))
         return sol
